@@ -29,6 +29,7 @@ function buildCase(rng) {
   const decls = ['const N0 = 3;', 'const V0 = { tag: "V0" };', 'const S0 = "s-zero";', 'const mk0 = () => V0;', 'function helperFn() { return "ret-helper"; }', 'const H = { v: { tag: "Hv" }, f: () => "ret-Hf" };'];
   const feat = [];
   const spec = { props: [] };
+  const dyn = rng.pick(['static', 'static', 'static', 'identifier', 'spread', 'computedIdentKey', 'computedCallKey', 'empty']);
   for (const k of keys) {
     const fnTyped = rng.bool(0.35);
     const form = rng.pick(['none', 'keyvalue', 'keyvalue', 'keyvalue', 'getter', 'method', 'asyncMethod', 'shorthand']);
@@ -38,7 +39,12 @@ function buildCase(rng) {
     const keySrc = spelling === 'alt' && k.alt ? k.alt : k.type;
     const isComputedLit = keySrc.startsWith('[');
     if (form === 'keyvalue') {
-      if (fnTyped) { const f = rng.pick(Object.keys(FN_FORMS)); const [src] = FN_FORMS[f](); tsType = '() => string'; entry = `${keySrc}: ${src}`; feat.push(`fn:${f}`); }
+      if (fnTyped) {
+        const f = rng.pick(Object.keys(FN_FORMS)); const [src] = FN_FORMS[f]();
+        // exactly Function, or a union that merely contains a function type (Vue then treats a function default as a factory)
+        tsType = dyn === 'static' && rng.bool(0.3) ? rng.pick(['string | (() => string)', '(() => string) | number', '(() => string) | { x: 1 }']) : '() => string';
+        entry = `${keySrc}: ${src}`; feat.push(`fn:${f}${tsType === '() => string' ? '' : ':unionTyped'}`);
+      }
       else { const f = rng.pick(Object.keys(VAL_FORMS)); const [src, t] = VAL_FORMS[f](); tsType = t; entry = `${keySrc}: ${src}`; feat.push(`val:${f}`); }
     } else if (form === 'getter') {
       if (isComputedLit) continue;
@@ -62,7 +68,6 @@ function buildCase(rng) {
   if (!spec.props.length) return { spec };
   if (rng.bool(0.2)) { entries.push('extraKey: "ignored"'); feat.push('extraKey'); }
   // dynamic forms
-  const dyn = rng.pick(['static', 'static', 'static', 'identifier', 'spread', 'computedIdentKey', 'computedCallKey', 'empty']);
   let defaultSrc;
   if (dyn === 'static') defaultSrc = `{ ${rng.shuffle(entries).join(', ')} }`;
   else if (dyn === 'empty') { defaultSrc = '{}'; spec.props.forEach((p) => { p.hasDefault = false; }); }
